@@ -150,6 +150,14 @@ func genKeySpec(t *tape.Tape) *KeySpec {
 			a := algForCurve(priv.Curve)
 			ks.Alg = &a
 		}
+		if t.Bool(1, 15, "keyspec.ec.otheralg") {
+			// alg names another ECDSA algorithm than the one the curve fixes
+			a := []int64{-7, -35, -36}[t.Choose(3, "keyspec.ec.otheralg.v")]
+			ks.Alg = &a
+			if a != algForCurve(priv.Curve) {
+				ks.Pair = nil
+			}
+		}
 		if t.Bool(1, 12, "keyspec.ec.compressed") {
 			// a peer that writes compressed points; x is the key's own or any
 			// string of the right length (about half of which are not the
